@@ -1,0 +1,33 @@
+//go:build verif
+
+package environment
+
+import (
+	"sort"
+
+	"github.com/skx/evalfilter/v2/object"
+)
+
+// Read-only accessors used by the verification harness in /verif.
+
+// VerifScopeDepth returns the number of open local scopes.
+func (e *Environment) VerifScopeDepth() int { return len(e.local) }
+
+// VerifGlobals returns the global variables.
+func (e *Environment) VerifGlobals() map[string]object.Object {
+	out := make(map[string]object.Object)
+	for k, v := range e.global {
+		out[k] = v
+	}
+	return out
+}
+
+// VerifFunctionNames returns the sorted names of the registered functions.
+func (e *Environment) VerifFunctionNames() []string {
+	var out []string
+	for k := range e.functions {
+		out = append(out, k)
+	}
+	sort.Strings(out)
+	return out
+}
